@@ -63,6 +63,10 @@ C02Canon(n, p1, b2, p2, b3) ==
     Tri(Sequential(n) /\ WellFormed(n, TRUE) /\ p1.res.ok /\ ModelCanon(n, p1.data, p1.kw),
         /\ b2.res.ok /\ p2.res.ok /\ b3.res.ok
         /\ ValEq(p1.res.v, p2.res.v) /\ b3.res.v = b2.res.v)
+\* formats outside the program AST (the gallery: adapters, lambdas): once build accepts what parse returned, the re-encoding is stable.
+\* cs = <<parse b, build, parse, build>>; values and bytes enter as digests (uninterpreted)
+C02Stable(p1, b2, p2, b3) ==
+    Tri(p1.res.ok /\ b2.res.ok, p2.res.ok /\ b3.res.ok /\ p1.res.v = p2.res.v /\ b3.res.v = b2.res.v)
 \* bytes the construct itself produced are reproduced exactly.   cs = <<build, parse, build>>
 C02Self(n, b1, p, b2) ==
     LET mb == BuildCall(n, b1.arg, <<>>, b1.kw) IN
